@@ -31,6 +31,10 @@
 (*   ListEOFError  a query that can never match makes the upload LISTING fail with  *)
 (*                 the error "EOF" instead of listing nothing (UploadList.Err does  *)
 (*                 not filter io.EOF as Query.Err does).                            *)
+(*   EqualIgnoresAbsence  Labels.Equal compares sizes and then looks the first map's   *)
+(*                 keys up in the second one, where a missing key reads as the      *)
+(*                 empty string: {x: ""} equals {gomaxprocs: "8"}; results with     *)
+(*                 different name labels are then coalesced into one record.        *)
 (*   FlushRows     > 0: pending label rows are flushed when that many are queued,   *)
 (*                 in the middle of inserting a record's labels, and the flush      *)
 (*                 forgets the last result, so the run that record starts is split. *)
@@ -41,11 +45,14 @@ CONSTANTS
   FileKeys, FileVals,     \* keys and (non-empty) values that file lines set
   OverrideKeys,           \* server keys that files try to set / delete
   Bases, Subs, Xs, Procs, \* benchmark names: [base, sub, x, procs]; None = part absent
-  FNames,                 \* file names (tokens; None = unnamed file)
+  FNames,                 \* file names (tokens)
+  OptParts,               \* which of "sub", "x", "procs", "fname" may also be absent (None)
   Meas,                   \* measurement tokens (rest of the benchmark line)
   MaxUploads, MaxFiles, MaxResults, MaxEdits,
+  MaxLines,               \* bound on the number of lines in the whole store (0 = none)
   QKeys, PairKeys, PairToks,   \* keys/tokens of the queries quantified over in mode M
-  EmptyGtIsAny, ListEOFError, FlushRows
+  EmptyGtIsAny, ListEOFError, FlushRows, EqualIgnoresAbsence,
+  EmptyNameValueIsLabel   \* free choice of the name-label derivation, see NameLabels
 
 None == 0 - 1
 
@@ -130,12 +137,20 @@ RejectsPart(p, key) == p.op = "eq" /\ p.v = 0 /\ key # "upload"
 -----------------------------------------------------------------------------
 \* Names, lines, files
 
-NameSet == [base : Bases, sub : Subs, x : Xs, procs : Procs]
+Opt(S, part) == IF part \in OptParts THEN S \cup {None} ELSE S
+NameSet == [base : Bases, sub : Opt(Subs, "sub"), x : Opt(Xs, "x"), procs : Opt(Procs, "procs")]
+FNameSet == Opt(FNames, "fname")
 NoName  == [base |-> None, sub |-> None, x |-> None, procs |-> None]
 
+\* The statement does not say what an EMPTY part of a name (BenchmarkX/ or BenchmarkX/k=)
+\* yields: a label whose value is the empty string (what parseNameLabels does:
+\* EmptyNameValueIsLabel = TRUE) or, as for file labels where an empty value means
+\* removal, no label (FALSE).  The driver asks the code which one it implements; either
+\* way every other rule of this module must hold.
+Has(v) == v # None /\ (v # 0 \/ EmptyNameValueIsLabel)
 NameLabels(n) ==
-  LET ks == {"name"} \cup (IF n.sub # None THEN {"sub1"} ELSE {})
-                     \cup (IF n.x # None THEN {"x"} ELSE {})
+  LET ks == {"name"} \cup (IF Has(n.sub) THEN {"sub1"} ELSE {})
+                     \cup (IF Has(n.x) THEN {"x"} ELSE {})
                      \cup (IF n.procs # None THEN {"gomaxprocs"} ELSE {})
   IN [k \in ks |-> CASE k = "name" -> n.base [] k = "sub1" -> n.sub [] k = "x" -> n.x [] k = "gomaxprocs" -> n.procs]
 
@@ -171,6 +186,12 @@ FileResults(srv, lines) == Read(lines, srv, DOMAIN srv)
 
 Same(a, b) == a.labels = b.labels /\ a.nameLabels = b.nameLabels
 
+\* benchfmt.Labels.Equal as built
+EqAsBuilt(l, b) == /\ Cardinality(DOMAIN l) = Cardinality(DOMAIN b)
+                   /\ \A k \in DOMAIN l : l[k] = (IF k \in DOMAIN b THEN b[k] ELSE 0)
+SameOp(a, b) == IF EqualIgnoresAbsence THEN EqAsBuilt(a.labels, b.labels) /\ EqAsBuilt(a.nameLabels, b.nameLabels)
+                ELSE Same(a, b)
+
 \* value of key k on a result (file/server labels and name labels have disjoint keys)
 Val(r, k) == IF k \in DOMAIN r.labels THEN r.labels[k]
              ELSE IF k \in DOMAIN r.nameLabels THEN r.nameLabels[k] ELSE None
@@ -199,7 +220,7 @@ Coalesce(rs) ==
         IF i = 0 THEN [recs |-> <<>>, last |-> NoRes, pending |-> 0]
         ELSE LET st == f[i-1]
                  r  == rs[i]
-             IN IF st.last # NoRes /\ Same(st.last, r)
+             IN IF st.last # NoRes /\ SameOp(st.last, r)
                 THEN [st EXCEPT !.recs[Len(st.recs)] = Append(@, r)]
                 ELSE LET n == NLabels(r)
                          flushed == FlushRows > 0 /\ st.pending + n > FlushRows
@@ -245,48 +266,69 @@ MatchDecl(r, q) == \A i \in 1..Len(q) : Holds(q[i], Val(r, q[i].k))
 
 KeysOf(q) == {q[i].k : i \in 1..Len(q)}
 TermsOn(q, k) == SelectSeq(q, LAMBDA t : t.k = k)
-Impossible(q) == \E k \in KeysOf(q) : MergeAll(TermsOn(q, k)) = EOF
-Rejected(q)   == ~Impossible(q) /\ \E k \in KeysOf(q) : RejectsPart(MergeAll(TermsOn(q, k)), k)
-MatchOper(r, q) == ~Impossible(q) /\ \A k \in KeysOf(q) : EvalPart(MergeAll(TermsOn(q, k)), Val(r, k), k)
+\* parseQuery: one merged part per key
+Parts(q) == [k \in KeysOf(q) |-> MergeAll(TermsOn(q, k))]
+ImpossibleP(parts) == \E k \in DOMAIN parts : parts[k] = EOF
+RejectedP(parts)   == ~ImpossibleP(parts) /\ \E k \in DOMAIN parts : RejectsPart(parts[k], k)
+\* inner join of the per-key sub-selects
+MatchOperP(r, parts) == ~ImpossibleP(parts) /\ \A k \in DOMAIN parts : EvalPart(parts[k], Val(r, k), k)
+
+Impossible(q)   == ImpossibleP(Parts(q))
+Rejected(q)     == RejectedP(Parts(q))
+MatchOper(r, q) == MatchOperP(r, Parts(q))
 
 \* a query with an equality on the empty value may be refused
 MayReject(q) == \E i \in 1..Len(q) : q[i].op = ":" /\ q[i].v = 0 /\ q[i].k # "upload"
 
+\* everything derived from the store, computed once: per upload its results, their
+\* positions, the records InsertRecord makes and the declared records
+\* (TLCEval makes TLC compute the value once instead of at every use)
+View(store) ==
+  LET f[u \in 0..Len(store)] ==
+        IF u = 0 THEN <<>>
+        ELSE LET rs == TLCEval(UploadResults(store, u))
+             IN Append(f[u-1], [rs |-> rs, pos |-> TLCEval(UploadPos(store, u)),
+                                recs |-> TLCEval(Coalesce(rs)), drecs |-> TLCEval(DeclRecords(store, u))])
+  IN TLCEval(f[Len(store)])
+
 \* positions of the results a query must return
-DeclIds(store, q) ==
-  UNION { LET rs == UploadResults(store, u) pos == UploadPos(store, u)
-          IN {pos[n] : n \in {m \in 1..Len(rs) : MatchDecl(rs[m], q)}}
-        : u \in 1..Len(store) }
+DeclIdsV(view, q) ==
+  UNION { {view[u].pos[n] : n \in {m \in 1..Len(view[u].rs) : MatchDecl(view[u].rs[m], q)}} : u \in DOMAIN view }
 
 \* positions of the results the index returns: all results of every record whose
 \* (first result's) labels pass all sub-selects
-OperIds(store, q) ==
-  UNION { LET recs == Coalesce(UploadResults(store, u))
-              pos  == UploadPos(store, u)
+OperIdsV(view, q) ==
+  LET parts == Parts(q) IN
+  IF ImpossibleP(parts) THEN {} ELSE
+  UNION { LET recs == view[u].recs
               off[j \in 0..Len(recs)] == IF j = 0 THEN 0 ELSE off[j-1] + Len(recs[j])
-          IN {pos[n] : n \in UNION {(off[j-1] + 1)..off[j] : j \in {j2 \in 1..Len(recs) : MatchOper(recs[j2][1], q)}}}
-        : u \in 1..Len(store) }
+          IN {view[u].pos[n] : n \in UNION {(off[j-1] + 1)..off[j] : j \in {j2 \in 1..Len(recs) : MatchOperP(recs[j2][1], parts)}}}
+        : u \in DOMAIN view }
+
+DeclIds(store, q) == DeclIdsV(View(store), q)
+OperIds(store, q) == OperIdsV(View(store), q)
 
 \* listing, declarative: newest upload first, uploads without a matching record left
 \* out, at most `limit` rows (0 = no limit); a row is <<upload, count>>
 TakeN(s, n) == IF n = 0 \/ n >= Len(s) THEN s ELSE SubSeq(s, 1, n)
 
-ListRows(store, cnt(_)) ==
-  LET f[i \in 0..Len(store)] ==
+ListRows(nup, cnt(_)) ==
+  LET f[i \in 0..nup] ==
         IF i = 0 THEN <<>>
-        ELSE LET u == Len(store) + 1 - i IN IF cnt(u) > 0 THEN Append(f[i-1], <<u, cnt(u)>>) ELSE f[i-1]
-  IN f[Len(store)]
+        ELSE LET u == nup + 1 - i IN IF cnt(u) > 0 THEN Append(f[i-1], <<u, cnt(u)>>) ELSE f[i-1]
+  IN f[nup]
 
-DeclCount(store, q, u) ==
-  LET recs == DeclRecords(store, u) IN Cardinality({j \in 1..Len(recs) : MatchDecl(recs[j][1], q)})
-OperCount(store, q, u) ==
-  LET recs == Coalesce(UploadResults(store, u)) IN Cardinality({j \in 1..Len(recs) : MatchOper(recs[j][1], q)})
+ListDeclV(view, q, limit) ==
+  LET cnt(u) == Cardinality({j \in 1..Len(view[u].drecs) : MatchDecl(view[u].drecs[j][1], q)})
+  IN [err |-> FALSE, rows |-> TakeN(ListRows(Len(view), cnt), limit)]
+ListOperV(view, q, limit) ==
+  LET parts == Parts(q)
+      cnt(u) == Cardinality({j \in 1..Len(view[u].recs) : MatchOperP(view[u].recs[j][1], parts)})
+  IN IF ImpossibleP(parts) THEN [err |-> ListEOFError, rows |-> <<>>]
+     ELSE [err |-> FALSE, rows |-> TakeN(ListRows(Len(view), cnt), limit)]
 
-ListDecl(store, q, limit) ==
-  [err |-> FALSE, rows |-> TakeN(ListRows(store, LAMBDA u : DeclCount(store, q, u)), limit)]
-ListOper(store, q, limit) ==
-  IF Impossible(q) /\ ListEOFError THEN [err |-> TRUE, rows |-> <<>>]
-  ELSE [err |-> FALSE, rows |-> TakeN(ListRows(store, LAMBDA u : OperCount(store, q, u)), limit)]
+ListDecl(store, q, limit) == ListDeclV(View(store), q, limit)
+ListOper(store, q, limit) == ListOperV(View(store), q, limit)
 
 -----------------------------------------------------------------------------
 \* State machine that writes upload files line by line (histories of set / change /
@@ -302,15 +344,21 @@ NBench(ls) == Cardinality({i \in 1..Len(ls) : ls[i].t = "bench"})
 
 Init == done = <<>> /\ files = <<>> /\ lines = <<>> /\ ts = <<>>
 
+TotalLines ==
+  LET inFiles(fs) == LET g[i \in 0..Len(fs)] == IF i = 0 THEN 0 ELSE g[i-1] + Len(fs[i].lines) IN g[Len(fs)]
+      h[u \in 0..Len(done)] == IF u = 0 THEN 0 ELSE h[u-1] + inFiles(done[u])
+  IN h[Len(done)] + inFiles(files) + Len(lines)
+
 AddLine(l) ==
   /\ Len(done) < MaxUploads /\ Len(files) < MaxFiles
+  /\ MaxLines = 0 \/ TotalLines < MaxLines
   /\ IF l.t = "bench" THEN NBench(lines) < MaxResults ELSE Len(lines) - NBench(lines) < MaxEdits
   /\ lines' = Append(lines, l)
   /\ UNCHANGED <<done, files, ts>>
 
-\* a file is closed after a benchmark line (a file without one fails the upload)
+\* a file can be closed once it has a benchmark line (a file without one fails the upload)
 EndFile(fn) ==
-  /\ lines # <<>> /\ lines[Len(lines)].t = "bench"
+  /\ NBench(lines) >= 1
   /\ files' = Append(files, [fname |-> fn, lines |-> lines])
   /\ lines' = <<>>
   /\ UNCHANGED <<done, ts>>
@@ -322,7 +370,7 @@ Commit ==
   /\ UNCHANGED <<lines, ts>>
 
 Next == \/ \E l \in LineSet : AddLine(l)
-        \/ \E fn \in FNames : EndFile(fn)
+        \/ \E fn \in FNameSet : EndFile(fn)
         \/ Commit
 
 Spec == Init /\ [][Next]_vars
@@ -359,6 +407,25 @@ MergeRejectOK == RejectsPart(MergeAll(ts), "k") => \E i \in 1..Len(ts) : ts[i].o
 MergeEOFOK    == MergeAll(ts) = EOF => \A lv \in {None} \cup (0..(MaxTok + 1)) : ~Conj(ts, lv)
 
 -----------------------------------------------------------------------------
+\* Mode M, part 1b: several keys.  Every query of up to 3 terms over LKeys x Ops x
+\* 0..MaxTok is an initial state; it is evaluated on every assignment of label values
+\* (None, the empty string for the name label "x" only, 1..MaxTok) to those keys.
+
+LKeys == {"k1", "x", "upload"}
+LTerms == [k : LKeys \cup {"nokey"}, op : Ops, v : 0..MaxTok]
+LabelStates == {[labels |-> l, nameLabels |-> n] :
+                  l \in UNION {[ks -> 1..MaxTok] : ks \in {{"upload"}, {"upload", "k1"}}},
+                  n \in UNION {[ks -> 0..MaxTok] : ks \in {{}, {"x"}}}}
+QLemmaInit(n) == ts \in UNION {[1..m -> LTerms] : m \in 0..n} /\ done = <<>> /\ files = <<>> /\ lines = <<>>
+QLemmaSpec2 == QLemmaInit(2) /\ [][UNCHANGED vars]_vars
+QLemmaSpec3 == QLemmaInit(3) /\ [][UNCHANGED vars]_vars
+
+QueryLemma ==
+  LET parts == Parts(ts) IN
+    /\ RejectedP(parts) => MayReject(ts)
+    /\ ~RejectedP(parts) => \A r \in LabelStates : MatchOperP(r, parts) = MatchDecl(r, ts)
+
+-----------------------------------------------------------------------------
 \* Mode M, part 2: invariants of the store machine, checked on committed states
 
 QTok(k) == IF k = "upload-part" THEN 0..(MaxUploads * MaxFiles)
@@ -375,13 +442,14 @@ CoalesceLemma ==
        /\ recs = DeclRecords(done, u)
 
 QueryMeaning ==
-  Committed => \A q \in QSetM :
-     /\ Rejected(q) => MayReject(q)
-     /\ ~Rejected(q) => OperIds(done, q) = DeclIds(done, q)
+  Committed => LET view == View(done) IN \A q \in QSetM :
+     LET parts == Parts(q) IN
+     /\ RejectedP(parts) => MayReject(q)
+     /\ ~RejectedP(parts) => OperIdsV(view, q) = DeclIdsV(view, q)
 
 ListingMeaning ==
-  Committed => \A q \in QSetM : \A limit \in 0..2 :
-     ~Rejected(q) => ListOper(done, q, limit) = ListDecl(done, q, limit)
+  Committed => LET view == View(done) IN \A q \in QSetM : \A limit \in 0..2 :
+     ~Rejected(q) => ListOperV(view, q, limit) = ListDeclV(view, q, limit)
 
 \* results: server labels present and intact whatever the file says
 ServerLabelsKept ==
